@@ -36,7 +36,8 @@ RULE = ("a case = one option table (>= 1 option of every declared type + 1-2 *Po
 ASSUMPTIONS = [
     "String / Filename values and LineList elements include double quotes, backslashes, tabs and leading/trailing blanks "
     "and control characters 0x01-0x1f/0x7f followed by digits or letters (decoded from the wire by the kvline "
-    "reference); CR and LF inside values are C12's subject",
+    "reference), and CR / LF at the end of or inside String, Filename, LineList and comma-list values: such a value "
+    "is either refused with an error and nothing is sent, or goes out as one line that decodes to exactly the value",
     "a SETCONF written while an earlier one is unanswered may or may not repeat the options the earlier one carries",
     "in half of the 'seq' cases Tor announces the controller's own accepted SETCONFs (CONF_CHANGED echo, after the 250 OK "
     "or - like Tor versions that send events synchronously - before it); 'seq' cases also contain CONF_CHANGED events for "
@@ -78,7 +79,7 @@ FLOORS = {
               "reads_compared": 1300, "second_save_checks": 600, "midack_edits": 80, "inplace_ops": 500,
               "escaped_values_decoded": 80, "assigned_from_other_option": 150, "overlapping_saves": 120,
               "overlap_outcomes_checked": 50, "invalid_assignments": 100, "invalid_assignments_on_pending_option": 25,
-              "foreign_events": 150, "foreign_events_on_pending_option": 40,
+              "foreign_events": 150, "foreign_events_on_pending_option": 40, "crlf_values_decoded": 40,
               "reach:txtorcon.torconfig:TorConfig.save": 1500,
               "reach:txtorcon.torconfig:TorConfig.mark_unsaved": 500,
               "reach:txtorcon.torconfig:TorConfig._save_completed": 650,
@@ -261,9 +262,21 @@ PLAIN = [False]     # set while generating a case with Tor's echo on: values mus
 #                     rendering and txtorcon's reply parsing unchanged - that decoding is C13's subject, not C10's
 
 
+CRLF = ["relay\n", "\n", "two\nlines", "cr\r", "line1\r\nline2", "ends with blank and lf \n", "x\n\n", "\rstart"]
+
+
+def crlf_value(rnd, plain):
+    """a value with CR / LF at its end or inside: the option types that validate nothing let it through, so it
+    must be refused with an error (nothing sent) or go out as ONE line that decodes to exactly this value"""
+    c = rnd.choice(CRLF)
+    return rnd.choice([c, str(plain) + "\n", str(plain) + "\r\n", str(plain) + c])
+
+
 def nasty(rnd, plain):
     if PLAIN[0]:
         return plain
+    if rnd.random() < 0.15:
+        return crlf_value(rnd, plain)
     if rnd.random() < 0.25:
         # control characters other than CR/LF, followed by octal digits / '8' / letters (octal escapes on the wire)
         c = rnd.choice(CTRL)
@@ -349,7 +362,8 @@ def gen_elem(rnd, typ):
         return nasty(rnd, CT.gen_line(rnd))
     k = CT.kind_of(typ)
     if k == "commalist":
-        return CT.gen_csv(rnd, typ, 1)[0]
+        e = CT.gen_csv(rnd, typ, 1)[0]
+        return crlf_value(rnd, e) if (not PLAIN[0] and rnd.random() < 0.04) else e
     return CT.gen_port_entry(rnd) if k == "portlist" else CT.gen_line(rnd)
 
 
@@ -722,6 +736,9 @@ def vfeat(v):
             f.add("tab")
         if x != x.strip(" "):
             f.add("edge-blank")
+        if "\n" in x or "\r" in x:
+            core = x.rstrip("\r\n")
+            f.add("trailing-cr-or-lf" if ("\n" not in core and "\r" not in core) else "cr-or-lf")
         for i, ch in enumerate(x):
             if (ord(ch) < 0x20 and ch not in "\t\r\n") or ord(ch) == 0x7f:
                 f.add("ctrl-then-octal-digit" if x[i + 1:i + 2] and x[i + 1] in "01234567" else "ctrl")
@@ -817,7 +834,12 @@ class Run(object):
             exc = e
         except Exception as e:
             self.V("edit-raised-" + type(e).__name__, self.m.klass(st["opt"]) + "+" + st["op"], {"step": st, "exc": repr(e)})
-        self.m.edit(st)
+        refused = exc is not None and st["op"] == "assign" and not st.get("invalid") and not st.get("from") \
+            and "cr-or-lf" in vfeat(st["value"])
+        if refused:
+            self.rec.count("crlf_values_refused_at_assignment")      # a legitimate answer to a value with CR / LF
+        else:
+            self.m.edit(st)
         self.rec.count("quiet_checks")
         self.rec.count("edits_applied")
         if exc is not None:
@@ -870,6 +892,9 @@ class Run(object):
             self.V("save-wrote-%s-lines" % ("several" if data.count(b"\r\n") > 1 else "partial"), line_class(expected),
                    {"written": data, "pending": expected})
         line = data[:-2].decode("latin1")
+        if "\n" in line or "\r" in line:
+            # Tor ends a command at LF: this is more than one line, whatever the fake Tor's framing made of it
+            self.V("save-wrote-several-lines", line_class(expected), {"written": data})
         word, _, rest = line.partition(" ")
         if word.upper() != "SETCONF":
             self.V("not-a-setconf", line_class(expected), {"line": line})
@@ -917,6 +942,8 @@ class Run(object):
             self.rec.seen("kinds_delivered", m.klass(c) + "/" + how)
             if vfeat(want):
                 self.rec.count("escaped_values_decoded")
+                if "cr-or-lf" in vfeat(want):
+                    self.rec.count("crlf_values_decoded")
                 self.rec.seen("value_features", vfeat(want))
         for c in sorted(must):
             if c not in groups:
@@ -1194,6 +1221,13 @@ class Run(object):
                 reply = st["reply"]
                 expected = dict(m.pending)
                 out, data = self.start_save(cfg, tor, link, reply)
+                from twisted.python.failure import Failure
+                if not data and out and isinstance(out[0], Failure) and "cr-or-lf" in line_class(expected):
+                    # refused with an error and nothing sent: acceptable for a value holding CR / LF; the case ends
+                    # here (the refused change stays pending, so every later save would be refused again)
+                    rec.count("crlf_values_refused_at_save")
+                    del tor.scripted[:]
+                    raise Stop()
                 wrote = self.judge_wire(data, expected, tor)
                 if st["op"] == "save_edit_ack":
                     ed = st["edit"]
